@@ -288,12 +288,14 @@ def impl(modname=None):
 
 def observe_graph(P, w, table, ex):
     name2tid = {t.name: i + 1 for i, t in enumerate(table)}
+    nodes = w.tasks
+    position = {id(n): k for k, n in enumerate(nodes)}
     out = []
-    for n in w.tasks:
+    for n in nodes:
         i = name2tid[n.name]
         out.append(ct.tup(ct.pos(i), ct.boolean(n is not table[i - 1]), ex.svals(n.task_input),
-                          ct.lst([ct.pos(name2tid[s.name]) for s in w.get_successors(n)]),
-                          ct.lst([ct.pos(name2tid[p.name]) for p in w.get_predecessors(n)])))
+                          ct.lst([ct.nat(position[id(s)]) for s in w.get_successors(n)]),
+                          ct.lst([ct.nat(position[id(p)]) for p in w.get_predecessors(n)])))
     return ct.lst(out), name2tid
 
 
